@@ -427,7 +427,7 @@ func TestC42Upgrade(t *testing.T) {
 	rapid.Check(t, func(t *rapid.T) {
 		ops := genHistory(t)
 		var b bulk
-		if rapid.IntRange(0, 4).Draw(t, "bulk") == 0 {
+		if rapid.IntRange(0, 7).Draw(t, "bulk") == 0 {
 			ls := bulkLayouts
 			if ev.Thorough() {
 				ls = append(ls, bulkLayoutsThorough...)
